@@ -92,7 +92,9 @@ func TestVerifC19(t *testing.T) {
 	// concretisations of the abstract alphabet
 	conc := map[string][]string{
 		"linkip": {"linkip"}, "ddns": {"ddns"}, "status": {"status"},
-		"x":  {"abcd1234", "dev-1", "ENCRYPTED0123456789abcdef", "example.org", "Status", "LINKIP", "a%2Fb", "%41"},
+		"x":  {"abcd1234", "dev-1", "ENCRYPTED0123456789abcdef", "example.org", "Status", "LINKIP", "a%2Fb", "%41",
+			// doubly encoded: after the one decoding the server performs these are ordinary segments "%2e%2e", "%2f"
+			"%252e%252e", "%252E", "a%252fb"},
 		"":   {""},
 		".":  {".", "%2e", "%2E"},
 		"..": {"..", "%2e%2e", ".%2E", "%2E."},
@@ -145,6 +147,8 @@ func TestVerifC19(t *testing.T) {
 		{"GET", "/linkip/%2e%2e/secret"}, {"GET", "/linkip/../secret"}, {"POST", "/ddns/../../secret/x"},
 		{"GET", "/linkip/a/..%2f..%2fsecret"}, {"POST", "/linkip/a/%2e%2e"}, {"GET", "/LINKIP/a/b"},
 		{"GET", "/linkip/a/b/STATUS"}, {"POST", "/ddns/a/b/.."},
+		{"GET", "/linkip/%252e%252e/admin"}, {"POST", "/ddns/%252e%252e/%252e%252e/admin"}, {"GET", "///linkip/a/b"},
+		{"POST", "///ddns/a/b/example.org"},
 	}
 	id := 0
 	send := func(method, rawPath string, abs []string) {
